@@ -1,6 +1,7 @@
 package main
 
 import (
+	"os"
 	"fmt"
 	"go/types"
 	"strings"
@@ -365,12 +366,18 @@ func mergeV(c *Term, a, b Value) Value {
 		return IntV{Ite(c, x.T, b.(IntV).T)}
 	case StrV:
 		y := b.(StrV)
+		x, y = promoteConst(x), promoteConst(y)
 		if (x.R != nil || x.Ch != nil) && (y.R != nil || y.Ch != nil) {
 			// keep structured strings apart (lazy merge), as a chain over the DISTINCT alternatives
 			var alts []strAlt
 			strAlts(x, c, &alts)
 			strAlts(y, Not(c), &alts)
 			return mkChoice(alts)
+		}
+		if DebugFlat && (x.R != nil || y.R != nil || x.Ch != nil || y.Ch != nil) {
+			xs, _ := x.Concrete()
+			ys, _ := y.Concrete()
+			fmt.Printf("    [flat-merge] in %s: structured=%v/%v const=%q/%q\n", curFn, x.R != nil || x.Ch != nil, y.R != nil || y.Ch != nil, xs, ys)
 		}
 		return flatMerge(c, x, y)
 	case StructV:
@@ -812,4 +819,17 @@ func mkChoice(alts []strAlt) StrV {
 		res = StrV{Len: Ite(a.G, a.S.Len, res.Len), Ch: &strChoice{C: a.G, A: a.S, B: res}}
 	}
 	return res
+}
+
+var DebugFlat = os.Getenv("SYMGO_DEBUG_FLAT") != ""
+var curFn string
+
+// promoteConst gives a concrete flat string its rope view back (constants are always structured)
+func promoteConst(s StrV) StrV {
+	if s.R == nil && s.Ch == nil {
+		if cs, ok := s.Concrete(); ok {
+			return StrC(cs)
+		}
+	}
+	return s
 }
